@@ -322,13 +322,16 @@ func (rp *HTTPReverseProxy) ServeHTTP(rw http.ResponseWriter, req *http.Request)
 	domain, _ := httppkg.CanonicalHost(req.Host)
 	location := req.URL.Path
 	user, passwd, _ := req.BasicAuth()
-	if !rp.CheckAuth(domain, location, user, user, passwd) {
+	newreq := rp.injectRequestInfoToCtx(req)
+	// Check the credentials against the route the request will be forwarded to: the routing
+	// user may come from Proxy-Authorization for proxy requests.
+	routeUser := newreq.Context().Value(RouteInfoKey).(*RequestRouteInfo).HTTPUser
+	if !rp.CheckAuth(domain, location, routeUser, user, passwd) {
 		rw.Header().Set("WWW-Authenticate", `Basic realm="Restricted"`)
 		http.Error(rw, http.StatusText(http.StatusUnauthorized), http.StatusUnauthorized)
 		return
 	}
 
-	newreq := rp.injectRequestInfoToCtx(req)
 	if req.Method == http.MethodConnect {
 		rp.connectHandler(rw, newreq)
 	} else {
